@@ -189,7 +189,8 @@ Theorem cross_h2 a fs tfs fr m sizes :
           m_trailer := collect (a_trailers a); m_api := expected_api a m sizes |}.
 Proof.
   intros (Hcode & Hallow & Hreason & Hfs & Hfields & He2e & Htfs & Htr) Hopen Hb2.
-  unfold h2_exchange. cbn [h2_final hh_status hh_end hh_fields]. rewrite atoi_code_text by assumption.
+  unfold h2_exchange, h2_exchange_after. rewrite app_nil_r.
+  cbn [h2_final hh_status hh_end hh_fields]. rewrite atoi_code_text by assumption.
   destruct (allowed_not_1xx _ Hallow) as [Hn H204]. rewrite Hn. cbn [hh_status hh_end hh_fields].
   rewrite h2_header_collect; [|apply (tokens_of fs _ Hfs Hfields)|apply (end_to_end_named K_TRAILER _ eq_refl He2e)].
   unfold h2_content_length. rewrite hget_collect.
